@@ -7,6 +7,8 @@ Record case := mkCase {
   c_onlink : bool; c_autonomous : bool;
   c_valid : Z; c_preferred : Z;
   c_deprecated : bool; c_epoch : Z; c_now : Z;
+  (* c_now = the FIRST reading of the injected clock during this Apply; the driver lets the clock advance on
+     later readings, all options must nevertheless describe this one instant *)
   c_addrs : option (list sysip);       (* None: listing addresses failed / plugin not prepared *)
   c_obs : result (list opt)            (* Ok: the options Apply appended; Err: Apply returned an error *)
 }.
